@@ -211,6 +211,9 @@ def main(tier, seed):
                 ["c4"]),
                # an empty file (and a one-byte one) renamed while the rename generation uses another format than the recorded one
                ("small-files-other-format", {"p": DIR, "q": DIR, "p/empty.lock": b"", "q/one.bin": b"1"}, [c("", ["md5"])], ["xxh64"])]
+    # names that end / begin with a blank (a recorded previous path is the name as it was, blanks included)
+    layouts.append(("blank-names", {"p": DIR, "q": DIR, "p/a.txt ": b"content of a", "p/ b.txt": b"content of b (distinct)",
+                                    "q/c .txt": b"content of c, distinct too"}, [c("", ["xxh64"])], ["xxh64"]))
     if tier == "thorough":
         layouts.append(("flat4", FLAT4, [c("", ["xxh64"])], ["xxh64"]))
     # a recorded folder that the rename generation excludes (-i given with that run) while a file moves into a new folder and
